@@ -124,7 +124,10 @@ def run(ctx):
         'a wire that no later-completing row reads and that is neither operand nor result is explored once and accounted for (its value cannot matter)',
     ]
     r1 = ctx.tlc('ProgGenMC', 'ProgGen_len1.cfg', workers=1, timeout=1800)
-    behs = r1.beh
+    # operand kind "derived": the operation applied to -p0, 2*p1, s0+1 / to values derived from a wire already known to be boolean
+    rd = ctx.tlc('ProgGenMC', 'ProgGen_derived.cfg', workers=1, timeout=1800)
+    rb = ctx.tlc('ProgGenMC', 'ProgGen_bool.cfg', workers=1, timeout=1800)
+    behs = r1.beh + rd.beh + rb.beh
     for i, b in enumerate(behs):
         b['id'] = i
     res = ctx.harness(['satenum', '--field', 'tinyfield', '--cases', '1', '--budget', '80000000', '--par', '16'], behs, timeout=7200)
@@ -143,9 +146,9 @@ def run(ctx):
             ctx.report('emitted constraints admit an assignment outside the documented relation: %s' % r['name'],
                        {'case': r['name'], 'examples': r['violations'], 'count': r['nb_violations'], 'rows': r['case']['rows']})
     # ---- TLC enumerates a subset itself; the state counts must agree with the Go enumerator
-    cand = [r for r in usable if r['tree'] <= 6000 and r['explored'] == r['tree'] and r['case']['rows']]
+    cand = [r for r in usable if r['tree'] <= 6000 and r['explored'] == r['tree'] and r['case']['rows'] and r['case']['op']]
     ctx.rng.shuffle(cand)
-    budget = 45000 if quick else 1200000
+    budget = 18000 if quick else 1200000
     pick, total = [], 0
     for r in cand:
         if total + r['tree'] > budget:
